@@ -33,8 +33,13 @@ func XBand(h int64) float64 { return math.Ldexp(1, int(h)-49) }
 
 // YFloat is the closed-form Mercator row coordinate 2^h*(1 - asinh(tan(lat))/pi)/2 (lat in degrees).
 func YFloat(lat float64, h int64) float64 {
-	phi := lat * math.Pi / 180
-	return math.Ldexp((1-math.Asinh(math.Tan(phi))/math.Pi)/2, int(h))
+	// sign-symmetric log form (no cancellation on either hemisphere); deliberately not the library's expression
+	phi := math.Abs(lat) * math.Pi / 180
+	m := math.Log(math.Tan(phi) + 1/math.Cos(phi))
+	if lat < 0 {
+		m = -m
+	}
+	return math.Ldexp((1-m/math.Pi)/2, int(h))
 }
 
 // YBand is the half-width (in index units) of the tolerance band of the row: 2^h * 8e-15.
